@@ -85,6 +85,7 @@ def scc_links(ck, facts, R):
 
 def run(ck, facts, tier):
     from shared import state
+    state.any_future_answer(ck, facts, "C10.ANY-FUTURE")
     state.result_stores(ck, facts, "C10.RESULT-STORES")
     scc_links(ck, facts, "C10.SCC-LINKS")
     cg = CallGraph(facts, ["chalk_solve", "chalk_engine", "chalk_recursive", "chalk_integration", "chalk"])
@@ -195,3 +196,29 @@ def run(ck, facts, tier):
         # insert only on the `index_of == None` path
         e = cfg.variant_edges(lambda tr: tr.get("of", {}).get("kind") == "call" and callee_matches(tr["of"]["call"], "Tables::index_of"), ["None"])
         guard_sites(ck, R, g, cfg.call_blocks("Tables::insert"), e, "Tables::insert", "index_of(goal) == None")
+
+    R = "C10.DELAYED-ANSWERS"
+    ck.rule(R, "K3: an SLG answer published with delayed (coinductive) subgoals is provisional until a refinement strand has discharged "
+               "them; root_answer refuses such answers (InvalidAnswer).  Tables persist across queries, so every table that publishes such "
+               "an answer must get its refinement strand - in on_no_remaining_subgoals every path from `pursue_answer(..) == Some(index)` to "
+               "the return must pass create_refinement_strand.  Today only the root table (empty caller stack) gets one: a table that "
+               "answered as a *subgoal* keeps the unrefined answer, and a later query for that goal on the same solver finds only an "
+               "invalid answer and reports `No possible solution`")
+    from core import trace_is_call as _tic
+    ob = need_body(ck, facts, R, "chalk_engine::logic::SolveState::on_no_remaining_subgoals")
+    if ob:
+        cfg = ob.cfg
+        some = cfg.variant_edges(lambda tr: _tic("pursue_answer")(tr.get("of") or {}), ["Some"])
+        crs = cfg.call_blocks("create_refinement_strand")
+        ck.floor(R, "on_no_remaining_subgoals.pursue_answer-Some-edge/create_refinement_strand", min(len(some), len(crs)), 1)
+        if some and crs:
+            esc = []
+            for e in some:
+                reach = cfg.reachable(e[1], (), False, stop=set(crs))
+                esc += [r for r in cfg.return_blocks() if r in reach]
+            if esc:
+                ck.violation(R, "on_no_remaining_subgoals:non-root-answer-never-refined", ob.where(),
+                             "an answer published by a table that has a caller on the stack reaches the return without "
+                             "create_refinement_strand: its delayed subgoals are never discharged in this table")
+            else:
+                ck.ok(R, "on_no_remaining_subgoals:every-answer-refined")
